@@ -121,7 +121,7 @@ def body(case):
         out.add("cast-data", "cast-data", f"cast_data={show(vd.cast_data,250)} expected {show(ref['cast'],250)} (input {show(doc,200)})")
     if exact(doc) != before:
         out.add("input-unchanged", "input-unchanged", f"input changed to {show(doc,300)}")
-    if aliases(vd.cast_data, doc):
+    if aliases(vd.cast_data, doc) and exact(vd.cast_data) != exact(doc):
         out.add("private-copy", "private-copy|aliasing", "a container of cast_data is a container of the input document")
     if len(vd.rule_tests) == len(ref["tests"]):
         for rt, (i, rref) in zip(vd.rule_tests, ref["tests"]):
